@@ -105,9 +105,11 @@ theorem append_spec (grow : Nat → Nat → Nat) (st : Store) (s : Slice) (xs : 
     · simp only [getD_append_new, Nat.zero_add, List.length_append, List.length_replicate, hrl]
       have := Nat.le_max_left (s.len + xs.length) (grow s.cap (s.len + xs.length))
       omega
-    · simp only [Store.read, getD_append_new, List.drop_zero]
-      rw [List.take_append_of_le_length (by simp [hrl])]
-      rw [List.take_of_length_le (by simp [hrl])]
+    · show (((st.arrays ++ [st.read s ++ xs ++ List.replicate _ 0]).getD st.arrays.length []).drop 0).take
+          (s.len + xs.length) = st.read s ++ xs
+      rw [getD_append_new, List.drop_zero]
+      rw [List.take_append_of_le_length (by simp only [List.length_append, hrl]; omega)]
+      rw [List.take_of_length_le (by simp only [List.length_append, hrl]; omega)]
     · intro o ho _
       exact ⟨read_alloc st _ o ho, Or.inr (by simp only; omega)⟩
     · intro o ⟨ho1, ho2⟩
